@@ -1,7 +1,8 @@
 #!/bin/bash
-# usage: try_mutant_clone.sh <patch.diff> <ID> [<ID>...]  -- like try_mutant.sh but on a scratch clone of /repo HEAD (VERIF_REPO), /repo is not touched
+# usage: try_mutant_clone.sh <patch.diff> <ID> [<ID>...]  -- like try_mutant.sh but on a scratch clone of /repo HEAD (VERIF_REPO), /repo is not touched; CLONE=<dir> selects the clone (one trial per clone at a time)
 P=$1; shift
-C=/tmp/sylt_mut
+C=${CLONE:-/tmp/sylt_mut}
+L=/tmp/mutc_$(basename $C)
 if [ ! -d $C/.git ]; then git clone -q /repo $C; fi
 cd $C && git fetch -q origin && git reset -q --hard origin/HEAD 2>/dev/null || git reset -q --hard origin/main
 git clean -fdq
@@ -9,7 +10,7 @@ if ! git apply --check "$P" 2>/dev/null; then
   if git apply --3way "$P" >/dev/null 2>&1; then echo "(applied with 3way)"; git reset -q; else echo "PATCH DOES NOT APPLY: $P"; git reset -q --hard; exit 8; fi
 else git apply "$P"; fi
 for id in "$@"; do
-  cd /verif && VERIF_REPO=$C timeout 3000 python3-vt run.py $id --tier ${TIER:-quick} > /tmp/mutc_$id.log 2>&1; rc=$?
-  echo "$id rc=$rc $(grep -c '^VIOLATION' /tmp/mutc_$id.log) violations; $(grep -m1 -A1 '^VIOLATION' /tmp/mutc_$id.log | tail -1 | cut -c1-160)"
+  cd /verif && VERIF_REPO=$C timeout 3000 python3-vt run.py $id --tier ${TIER:-quick} > ${L}_$id.log 2>&1; rc=$?
+  echo "$id rc=$rc $(grep -c '^VIOLATION' ${L}_$id.log) violations; $(grep -m1 -A1 '^VIOLATION' ${L}_$id.log | tail -1 | cut -c1-160)"
 done
 cd $C && git reset -q --hard
